@@ -494,7 +494,12 @@ def _emitted_keys(ctx, f):
                                 t.slice, ast.Constant):
                     gate = None
                     for i, br in C.guarding_ifs(n, f.node):
-                        gt = ctx.gates.gate_of(f, i.test)
+                        t_ = i.test
+                        if isinstance(t_, ast.Name):
+                            # a flag bound once to a version predicate
+                            d_ = c05.single_def(f, t_.id)
+                            t_ = d_.value if d_ is not None else t_
+                        gt = ctx.gates.gate_of(f, t_)
                         if gt is not None and br == 'body':
                             gate = gt
                         elif gt is None:
@@ -528,11 +533,12 @@ def r23(ctx, R):
         return
     dkeys = _emitted_keys(ctx, td)
     lkeys = _emitted_keys(ctx, tl)
-    R.ob('R2.3', 'emitted-keys-resolved', bool(dkeys) and bool(lkeys) and
-         all(g != 'opaque' for _k, g, _n in dkeys + lkeys),
-         'emitted keys and their gates are recognised',
-         [(k, getattr(g, 'minv', g)) for k, g, _n in dkeys + lkeys],
-         func=td, nontrivial=False)
+    if not R.ob('R2.3', 'emitted-keys-resolved', bool(dkeys) and bool(lkeys)
+                and all(g != 'opaque' for _k, g, _n in dkeys + lkeys),
+                'emitted keys and their gates are recognised',
+                [(k, getattr(g, 'minv', g)) for k, g, _n in dkeys + lkeys],
+                func=td, nontrivial=False):
+        return
     # PUT schema per version from the versioned handler windows
     put = prog.funcs_named('placement.handlers.allocation:'
                            'set_allocations_for_consumer')
